@@ -323,7 +323,10 @@ pub fn verify_files(ctx: &Rc<RunCtx>, when: &str) {
 pub fn post_run(ctx: &Rc<RunCtx>) {
     let plan = ctx.plan.clone();
     // panics of any task
-    let panics = PANICS.with(|p| p.borrow().clone());
+    let mut panics = PANICS.with(|p| p.borrow().clone());
+    if ctx.aborted.get() {
+        panics.pop(); // already reported as api-panic
+    }
     for p in panics.iter() {
         let canonical: String = p.split(" @ ").next().unwrap_or("").chars().take(120).collect();
         let canonical = canonical.split("Reason").next().unwrap_or("").to_string();
